@@ -316,15 +316,15 @@ class Origin:
         self.nconn = 0
         self.arrivals = []        # list of Req in arrival order
 
-    async def start(self, host='127.0.0.1'):
+    async def start(self, host='127.0.0.1', port=0):
         if self.rcvbuf:
             ls = socket.socket(socket.AF_INET, socket.SOCK_STREAM)
             ls.setsockopt(socket.SOL_SOCKET, socket.SO_REUSEADDR, 1)
             ls.setsockopt(socket.SOL_SOCKET, socket.SO_RCVBUF, self.rcvbuf)
-            ls.bind((host, 0))
+            ls.bind((host, port))
             self.server = await asyncio.start_server(self._conn, sock=ls, limit=1 << 22)
         else:
-            self.server = await asyncio.start_server(self._conn, host, 0, limit=1 << 22)
+            self.server = await asyncio.start_server(self._conn, host, port, limit=1 << 22)
         self.port = self.server.sockets[0].getsockname()[1]
         return self
 
